@@ -274,7 +274,7 @@ def random_walk(rng, cfg, nsteps, punctual, illegal_p=0.05, resp_weight=3):
 
 
 # ---------------------------------------------------------------------------------------------- exhaustive small scope
-def enumerate_orderings(cfg, kinds, max_depth, budget, allow_nextpage=True):
+def enumerate_orderings(cfg, kinds, max_depth, budget, allow_nextpage=True, final_tick=100000):
     """All orderings of: a response (each kind) on any open attempt, the next due timer (clock moved to its due time
     first), any queued task, one page fetch.  Depth-first, each node replays its history on a fresh real future.
     Yields complete histories (leaves).  -> generator of ops; sets enumerate_orderings.capped."""
@@ -305,7 +305,9 @@ def enumerate_orderings(cfg, kinds, max_depth, budget, allow_nextpage=True):
                 nxt.append(([['nextpage', list(cfg['plan'])]], pages + 1))
         if not nxt:
             count[0] += 1
-            yield ops
+            # nothing is pending any more (or the depth is reached): if no timer is live either, let a long time pass
+            # -- a punctual tick -- so that a fetch that was left without outcome AND without timer shows
+            yield ops + ([['tick', final_tick]] if final_tick and not w.live_timers() else [])
             return
         for extra, pg in nxt:
             for h in expand(ops + extra, pg):
@@ -313,3 +315,62 @@ def enumerate_orderings(cfg, kinds, max_depth, budget, allow_nextpage=True):
 
     for h in expand(prefix, 0):
         yield h
+
+
+# ---------------------------------------------------------------------------------------------- directed families
+def fire_until_quiet(cfg, ops, limit=8):
+    """ops that fire, punctually, every timer that becomes due after `ops` (servers stay silent)"""
+    w = H.World(cfg)
+    for op in ops:
+        w.step(op)
+    tail = []
+    for _ in range(limit):
+        live = w.live_timers()
+        if not live:
+            break
+        k = min(live, key=lambda k: (w.timers[k].due, k))
+        d = w.timers[k].due - w.now
+        for op in (([['tick', d]] if d > 0 else []) + [['fire', k]]):
+            w.step(op)
+            tail.append(op)
+    return tail
+
+
+def directed_histories():
+    """Small families aimed at code paths the orderings above do not vary: the environment changes between an answer and
+    the retry task; a page is fetched again after its fetch failed; a coordinator fails retryably and the re-sent request
+    is never answered.  -> (cfg, ops, punctual)"""
+    out = []
+    pools3 = {1: 'ok', 2: 'ok', 3: 'ok'}
+    for T in (None, 500):
+        for specs in ([], [100]):
+            cfg = {'plan': [1, 2, 3], 'timeout': T, 'specs': specs, 'pools': dict(pools3), 'now': 0}
+            # RETRY on the same host / next host, the pool of that host became unusable before the retry task runs
+            for dec in (0, 1):
+                for st in ('noconn', 'sendfail', 'shutdown', 'missing'):
+                    for others in ('ok', st):
+                        for cls in ('ReadTimeout', 'ConnException'):
+                            pl = {1: st, 2: others, 3: others}
+                            ops = [['addcb'], ['send'], ['resp', 0, 'retry', dec, cls], ['pools', pl], ['run', 0]]
+                            out.append((cfg, ops, True))
+                            out.append((cfg, ops + [['resp', 1, 'rows', False, None], ['result']], True))
+            # a page fetch fails (server error / rethrown error / client timeout), the application fetches the page again
+            head = [['addcb'], ['send'], ['resp', 0, 'rows', True, None], ['nextpage', [2, 3, 1]]]
+            fails = [[['resp', 1, 'other', None, 'Invalid']], [['resp', 1, 'retry', 2, 'Unavailable']], [['resp', 1, 'junk', None, None]]]
+            if T is not None:
+                fails.append(fire_until_quiet(cfg, head))      # servers silent: the page fetch times out
+            for fail in fails:
+                for again in ([['resp', 2, 'rows', False, None]],
+                              [['resp', 2, 'rows', True, None], ['nextpage', [3, 1]], ['resp', 3, 'void', None, None]],
+                              [['resp', 2, 'other', None, 'Syntax']], []):
+                    ops = head + fail + [['nextpage', [1, 2]]] + again
+                    ops = ops + fire_until_quiet(cfg, ops) + [['tick', 5000], ['result'], ['addcb']]
+                    out.append((cfg, ops, True))
+            # fail-then-silent: the first coordinator fails retryably, the re-sent request is never answered
+            if T is not None:
+                for dec in (0, 1):
+                    for cls in H.RETRY_CLASSES:
+                        ops = [['addcb'], ['send'], ['resp', 0, 'retry', dec, cls], ['run', 0]]
+                        tail = fire_until_quiet(cfg, ops)
+                        out.append((cfg, ops + tail + [['tick', 5000], ['result']], True))
+    return out
